@@ -40,12 +40,26 @@ def cases(rng, tier, shard, nshards):
     while True:
         version = rng.choice(["gfa1", "gfa2"])
         if rng.random() < 0.7:
-            lines = small_doc(rng, version, nmax)
+            twin = rng.random() < 0.25
+            lines = small_doc(rng, version, nmax - 1 if twin else nmax)
+            if twin:
+                # two records written identically are two records (only records without identifier
+                # can be: C without ID, F, and E/G/O/U with '*'; identical L lines are UNSPECIFIED)
+                cand = [l for l in lines if _twinnable(l, version)]
+                if cand:
+                    lines = lines + [rng.choice(cand)]
             yield {"version": version, "lines": lines, "mode": "all", "explicit": rng.random() < 0.3}
         else:
             lines = small_doc(rng, version, 9) if rng.random() < 0.5 else G.gen_doc(rng, version=version).lines()[:14]
             yield {"version": version, "lines": lines, "mode": "random", "n": 40 if tier == "quick" else 200,
                    "seed": rng.getrandbits(32), "explicit": rng.random() < 0.3}
+
+
+def _twinnable(l, version):
+    f = l.split("\t")
+    if version == "gfa1":
+        return f[0] == "C" and not any(t.startswith("ID:") for t in f[7:])
+    return f[0] == "F" or (f[0] in ("E", "G", "O", "U") and f[1] == "*")
 
 
 def perms(case):
@@ -99,8 +113,14 @@ def run(case, ctx):
         n = T.ident(r)
         if n is not None:
             defined.add(n)
+    if len(set(lines)) < len(lines):
+        ctx.count("documents_with_twin_records")
+    seen_orders = set()
     for p in perms(case):
         order = [lines[i] for i in p]
+        if tuple(order) in seen_orders:
+            continue            # the same text (twins exchanged)
+        seen_orders.add(tuple(order))
         r = call(ctx, "Gfa(list)", gfapy.Gfa, order, **kw)
         nperm += 1
         ctx.count("permutations")
